@@ -693,8 +693,8 @@ func (g *gen) txCreate(pm *Model) *Tx {
 		m.Kind = KCreateBatch
 		m.MinBidPrice = g.pick("0.1", "0.5", "1", "0.000000000000000001", "0.01")
 		m.MaxExtRound = uint32(g.in(g.p.MaxRounds[0], g.p.MaxRounds[1]))
-		if g.chance(0.02) {
-			m.MaxExtRound = 30
+		if g.chance(0.02) || (g.p.Name == "rounds" && g.chance(0.05)) {
+			m.MaxExtRound = 30 // the documented maximum: 31 end times
 		}
 		m.ExtRate = g.pick("0.05", "0.2", "0.5", "1", "0.000000000000000001", "0.333333333333333333", "0.25", "0.1",
 			"0.333333333333333334", "0.666666666666666667", "0.666666666666666666", "0.142857142857142858", "0.5", "0.25",
